@@ -34,6 +34,7 @@ def handlerFor (prop : String) : Option (List String → String) :=
   | "C19" => some C19.handle
   | "C02" => some C02.handle
   | "C20" => some C20.handle
+  | "C11" => some (fun f => match f with | [_, _, n, _] => s!"n={n}" | _ => "bad-case")
   | "C14" => some Rt.handle
   | "C06" => some Rt.handle
   | "C25" => some Rt.handle
